@@ -39,4 +39,20 @@ theorem progressClaimAt_some (b : Bool) : ProgressClaimAt (some b) := progress_d
 edit that removes the drain: the deadlock schedule `nodrainSched` -/
 theorem current_progress : ProgressClaimAt Bpmn.Gen.C09.unsubscribeDrains := progressClaimAt_some _
 
+def RelayClaimAt : Option Bool → Prop
+  | some b => RelayClaim b
+  | none => False
+
+theorem relayClaimAt_some (b : Bool) : RelayClaimAt (some b) := relay_dichotomy b
+
+/-- `some true`: the relay of an embedded sub-process forwards the whole inner stream; `some false` (the order
+`startAll` … `Subscribe`): the schedule `lateRelaySched`, whose engine-level counterpart is the known finding
+`relay_lost_inner_prefix` -/
+theorem current_relay : RelayClaimAt Bpmn.Gen.C09.relaySubscribesBeforeStart := relayClaimAt_some _
+
+/-- the code is on the positive side of both dichotomies (a regression makes exactly this obligation fail, and the
+runner then searches for the failing input: `tracer_call_blocked` / `relay_lost_inner_prefix`) -/
+theorem current_positive_sides :
+    Bpmn.Gen.C09.unsubscribeDrains = some true ∧ Bpmn.Gen.C09.relaySubscribesBeforeStart = some true := by decide
+
 end Bpmn.Props.C09
